@@ -97,31 +97,46 @@ structure Site where
   redir : Option Bytes := none
   deriving Repr, DecidableEq, Inhabited
 
-/-- caskettls.QualifiesForManagedTLS (for a non-nil config holder with a non-nil TLS config) -/
-def qualifiesForManagedTLS (c : Site) : Bool :=
+/-- The configured HTTP and HTTPS ports: strconv.Itoa(certmagic.HTTPPort) and strconv.Itoa(certmagic.HTTPSPort), which the
+flags -http-port / -https-port move.  Every function below whose Go original reads them takes them as parameter `P`
+(suffix `P`); the function without suffix is the same at the default ports `Ports.std` (regenerated: 80 / 443). -/
+structure Ports where
+  http : Bytes
+  https : Bytes
+  deriving Repr, DecidableEq, Inhabited
+
+/-- certmagic's defaults (regenerated from its source) -/
+def Ports.std : Ports := { http := httpPort, https := httpsPort }
+
+@[simp] theorem Ports.std_http : Ports.std.http = httpPort := rfl
+@[simp] theorem Ports.std_https : Ports.std.https = httpsPort := rfl
+
+/-- caskettls.QualifiesForManagedTLS (for a non-nil config holder with a non-nil TLS config): the port must not be the
+configured HTTP port -/
+def qualifiesForManagedTLSP (P : Ports) (c : Site) : Bool :=
   c.hasManager &&
-  ((!c.manual || c.onDemand) && !c.selfSigned && c.port != unmanagedPort && c.email != unmanagedEmail &&
+  ((!c.manual || c.onDemand) && !c.selfSigned && c.port != P.http && c.email != unmanagedEmail &&
     (subjectQualifiesForPublicCert c.host || c.onDemand))
 
 /-- the condition of markQualifiedForAutoHTTPS -/
-def qualifies (c : Site) : Bool :=
+def qualifiesP (P : Ports) (c : Site) : Bool :=
   !isLoopback c.host && !isLoopback c.listen && !isInternal c.host && !isInternal c.listen &&
-  qualifiesForManagedTLS c && c.scheme != b!"http"
+  qualifiesForManagedTLSP P c && c.scheme != b!"http"
 
-def markOne (c : Site) : Site := if qualifies c then { c with managed := true } else c
+def markOneP (P : Ports) (c : Site) : Site := if qualifiesP P c then { c with managed := true } else c
 
 /-- markQualifiedForAutoHTTPS -/
-def markQualified (cs : List Site) : List Site := cs.map markOne
+def markQualifiedP (P : Ports) (cs : List Site) : List Site := cs.map (markOneP P)
 
 /-- one iteration of enableAutoHTTPS(configs, false): a managed, not on-demand site gets TLS enabled, scheme https and,
 if it has no port (and is not manual, and is not `localhost`), the HTTPS port -/
-def enableOne (c : Site) : Site :=
+def enableOneP (P : Ports) (c : Site) : Site :=
   if !c.managed || !c.hasManager || c.onDemand then c
   else
     { c with enabled := true, scheme := b!"https",
-             port := if c.port.isEmpty && (!c.manual || c.onDemand) && c.host != b!"localhost" then httpsPort else c.port }
+             port := if c.port.isEmpty && (!c.manual || c.onDemand) && c.host != b!"localhost" then P.https else c.port }
 
-def enableAutoHTTPS (cs : List Site) : List Site := cs.map enableOne
+def enableAutoHTTPSP (P : Ports) (cs : List Site) : List Site := cs.map (enableOneP P)
 
 /-- hostHasOtherPort(allConfigs, thisConfigIdx, otherPort); `none` = index out of range (the Go code would panic) -/
 def hostHasOtherPort (all : List Site) (idx : Nat) (other : Bytes) : Option Bool :=
@@ -134,63 +149,81 @@ def hostHasOtherPort (all : List Site) (idx : Nat) (other : Bytes) : Option Bool
         | none => false)
 
 /-- what the redirect handler captures for an HTTPS site served on `port`: the HTTPS port is not written into URLs -/
-def capturedPort (port : Bytes) : Bytes := if port == httpsPort then [] else port
+def capturedPortP (P : Ports) (port : Bytes) : Bytes := if port == P.https then [] else port
 
-/-- redirPlaintextHost: the plaintext site that redirects to `c`.  The captured `redirPort` is the port `c` will be
-served on: its explicit port, else the default port when `c` brings its own or a self-signed certificate and is not
+/-- redirPlaintextHost: the plaintext site (on the HTTP port) that redirects to `c`.  The captured `redirPort` is the port `c`
+will be served on: its explicit port, else the default port when `c` brings its own or a self-signed certificate and is not
 on-demand (MakeServers leaves such a site on the default port), else empty; the HTTPS port is written as empty. -/
-def redirPlaintextHost (c : Site) : Site :=
+def redirPlaintextHostP (P : Ports) (c : Site) : Site :=
   let rp := if c.port.isEmpty && (c.manual || c.selfSigned) && !(c.hasManager && c.onDemand) then defaultPort else c.port
-  { host := c.host, port := httpPort, listen := c.listen, hasManager := c.hasManager,
-    redir := some (capturedPort rp) }
+  { host := c.host, port := P.http, listen := c.listen, hasManager := c.hasManager,
+    redir := some (capturedPortP P rp) }
 
 /-- what makePlaintextRedirects requires of a site by itself: TLS on, no_redirect off, not declared as plain HTTP -/
-def wantsRedirect (c : Site) : Bool :=
-  c.enabled && !c.noRedirect && c.scheme != b!"http" && c.port != httpPort
+def wantsRedirectP (P : Ports) (c : Site) : Bool :=
+  c.enabled && !c.noRedirect && c.scheme != b!"http" && c.port != P.http
 
 /-- hostHasRedirectingSiteOnPort: like hostHasOtherPort, but the other site must want a redirect itself -/
-def hostHasRedirectingSiteOnPort (all : List Site) (idx : Nat) (other : Bytes) : Option Bool :=
+def hostHasRedirectingSiteOnPortP (P : Ports) (all : List Site) (idx : Nat) (other : Bytes) : Option Bool :=
   match all[idx]? with
   | none => none
   | some this =>
     some ((List.range all.length).any fun i =>
       i != idx && match all[i]? with
-        | some o => o.host == this.host && o.port == other && wantsRedirect o
+        | some o => o.host == this.host && o.port == other && wantsRedirectP P o
         | none => false)
 
 /-- the loop of makePlaintextRedirects: `i` runs over the ORIGINAL configs (`todo`), while
 hostHasOtherPort looks at the list as grown so far (`all`) — the append-while-ranging behaviour of the Go code. -/
-def redirectsGo : List Site → Nat → List Site → List Site
+def redirectsGoP (P : Ports) : List Site → Nat → List Site → List Site
   | [], _, all => all
   | c :: todo, i, all =>
-    let want := wantsRedirect c &&
-      hostHasOtherPort all i httpPort == some false &&
-      (c.port == httpsPort || hostHasRedirectingSiteOnPort all i httpsPort == some false)
-    redirectsGo todo (i + 1) (if want then all ++ [redirPlaintextHost c] else all)
+    let want := wantsRedirectP P c &&
+      hostHasOtherPort all i P.http == some false &&
+      (c.port == P.https || hostHasRedirectingSiteOnPortP P all i P.https == some false)
+    redirectsGoP P todo (i + 1) (if want then all ++ [redirPlaintextHostP P c] else all)
 
 /-- makePlaintextRedirects -/
-def makePlaintextRedirects (cs : List Site) : List Site := redirectsGo cs 0 cs
+def makePlaintextRedirectsP (P : Ports) (cs : List Site) : List Site := redirectsGoP P cs 0 cs
 
 /-- the per-site loop body of MakeServers (first loop), for configs with a certmagic manager: a TLS site declared as plain
 HTTP (HTTP port or scheme http) gets TLS switched off, otherwise an empty scheme becomes https; then an empty port becomes
 the HTTPS port unless the site brings its own or a self-signed certificate (and is not on-demand) -/
-def makeServersOne (c : Site) : Site :=
+def makeServersOneP (P : Ports) (c : Site) : Site :=
   if !c.enabled then c
   else
-    let plain := c.port == httpPort || c.scheme == b!"http"
+    let plain := c.port == P.http || c.scheme == b!"http"
     { c with enabled := !plain,
              scheme := if !plain && c.scheme.isEmpty then b!"https" else c.scheme,
-             port := if c.port.isEmpty && ((!c.manual && !c.selfSigned) || c.onDemand) then httpsPort else c.port }
+             port := if c.port.isEmpty && ((!c.manual && !c.selfSigned) || c.onDemand) then P.https else c.port }
 
 /-- groupSiteConfigsByListenAddr's side effect: an empty port becomes the default port -/
 def defaultPortOne (c : Site) : Site := if c.port.isEmpty then { c with port := defaultPort } else c
 
 /-- MakeServers as far as the site configs are concerned -/
-def makeServers (cs : List Site) : List Site := (cs.map makeServersOne).map defaultPortOne
+def makeServersP (P : Ports) (cs : List Site) : List Site := (cs.map (makeServersOneP P)).map defaultPortOne
 
 /-- the pure stages of activateHTTPS followed by MakeServers -/
-def pipeline (cs : List Site) : List Site :=
-  makeServers (makePlaintextRedirects (enableAutoHTTPS (markQualified cs)))
+def pipelineP (P : Ports) (cs : List Site) : List Site :=
+  makeServersP P (makePlaintextRedirectsP P (enableAutoHTTPSP P (markQualifiedP P cs)))
+
+/-! the same at the default ports (the names these functions had before the ports became a parameter) -/
+
+def qualifiesForManagedTLS : Site → Bool := qualifiesForManagedTLSP Ports.std
+def qualifies : Site → Bool := qualifiesP Ports.std
+def markOne : Site → Site := markOneP Ports.std
+def markQualified : List Site → List Site := markQualifiedP Ports.std
+def enableOne : Site → Site := enableOneP Ports.std
+def enableAutoHTTPS : List Site → List Site := enableAutoHTTPSP Ports.std
+def capturedPort : Bytes → Bytes := capturedPortP Ports.std
+def redirPlaintextHost : Site → Site := redirPlaintextHostP Ports.std
+def wantsRedirect : Site → Bool := wantsRedirectP Ports.std
+def hostHasRedirectingSiteOnPort : List Site → Nat → Bytes → Option Bool := hostHasRedirectingSiteOnPortP Ports.std
+def redirectsGo : List Site → Nat → List Site → List Site := redirectsGoP Ports.std
+def makePlaintextRedirects : List Site → List Site := makePlaintextRedirectsP Ports.std
+def makeServersOne : Site → Site := makeServersOneP Ports.std
+def makeServers : List Site → List Site := makeServersP Ports.std
+def pipeline : List Site → List Site := pipelineP Ports.std
 
 /-! ## the tls directive (flags only) -/
 
